@@ -2358,6 +2358,114 @@ def check_case_exclusive(ck):
 STATUS_OK = ("success", "max_iter", "stagnated")      # status_success() of kernel/solver/base.hpp
 
 
+ABS_NAMES = ("abs", "fabs", "cuda_abs")
+
+
+def check_extremum_measure(ck):
+    """E4.extremum-measure: a running-extremum search `ext = <init>; loop { if(cand > ext) { ext = cand; ... } }` measures the
+    initial value, the compared candidate and the stored value in the same way: all |a[..]| or all a[..] of one array.  Found
+    structurally (any local variable that an if-statement compares with a candidate and then assigns that candidate to)."""
+    rule = "E4.extremum-measure"
+    facts = featlib.extract("tu/c08_math_invert.cpp", files=featlib.repo_path("kernel/util/math.hpp"))
+    ck.tu(facts)
+    for e in (facts.errors_in_repo() + facts.errors_outside_repo())[:3]:
+        ck.incomplete(rule, "driver TU tu/c08_math_invert.cpp does not compile: %s:%d %s" % (e["file"], e["line"], e["msg"][:200]))
+    fns = [f for f in facts.functions if f.tk != "pattern" and f.name == "invert_matrix" and f.body is not None]
+    if not fns:
+        ck.incomplete(rule, "no instantiation of Math::invert_matrix found")
+    # ... and the helpers it calls (the pivot search may live in a function of its own)
+    bydecl = {}
+    for g in facts.functions:
+        if g.tk != "pattern" and g.body is not None and g.d.get("decl") is not None:
+            bydecl.setdefault(g.d["decl"], g)
+    closure, work = list(fns), [(f, 0) for f in fns]
+    while work:
+        g, dep = work.pop()
+        if dep >= 3:
+            continue
+        for n in walk(g.body):
+            if n.get("k") in ("Call", "MCall") and n.get("cdecl") in bydecl:
+                h = bydecl[n["cdecl"]]
+                if all(h is not x for x in closure) and (h.name or "").rsplit("::", 1)[-1] not in ABS_NAMES:
+                    closure.append(h)
+                    work.append((h, dep + 1))
+    total = 0
+    for f in closure:
+        view = FnView(f)
+
+        def measure(e):
+            """('abs', array decl) | ('raw', array decl) | ('const',) | None (something else: no claim)"""
+            v = view.value(e)
+            kind = "raw"
+            if v.get("k") in ("Call", "MCall") and (v.get("callee") or v.get("n") or "").rsplit("::", 1)[-1] in ABS_NAMES and len(v.get("a", [])) == 1:
+                kind = "abs"
+                v = view.value(v["a"][0])
+            if v.get("k") in ("Int", "Float") or (v.get("k") == "Un" and v.get("op") == "-" and view.value(v["e"]).get("k") in ("Int", "Float")):
+                return ("const",)
+            if v.get("k") == "Index":
+                b = view.value(v["b"])
+                if b.get("k") == "Ref":
+                    return (kind, b["d"])
+            if v.get("k") == "OpCall" and v.get("op") == "[]" and v.get("a"):
+                b = view.value(v["a"][0])
+                if b.get("k") in ("Ref", "Member"):
+                    return (kind, b.get("d"))
+            return None
+
+        def same(a_, b_):
+            a_, b_ = strip(a_), strip(b_)
+            if a_.get("k") == "Ref" and b_.get("k") == "Ref":
+                return a_.get("d") == b_.get("d")
+            return render(view.value(a_)) == render(view.value(b_))
+        found = 0
+        for n in walk(f.body):
+            if n.get("k") != "If":
+                continue
+            c = strip(n["c"])
+            if c.get("k") != "Bin" or c.get("op") not in ("<", ">", "<=", ">="):
+                continue
+            th = n.get("then") or {}
+            stm = th.get("s", []) if th.get("k") == "Block" else [th]
+            for lhs_c, rhs_c in ((c["lhs"], c["rhs"]), (c["rhs"], c["lhs"])):
+                x = strip(lhs_c)
+                if x.get("k") != "Ref" or x.get("dk") != "local" or x["d"] not in view.locals:
+                    continue
+                upd = [a_ for a_ in stm if a_.get("k") == "Assign" and a_.get("op") == "=" and strip(a_["lhs"]).get("k") == "Ref" and strip(a_["lhs"])["d"] == x["d"]]
+                if len(upd) != 1:
+                    continue
+                my = None
+                if not same(upd[0]["rhs"], rhs_c):
+                    my, mc0 = measure(upd[0]["rhs"]), measure(rhs_c)
+                    if my is None or mc0 is None or len(my) < 2 or my[1:] != mc0[1:]:
+                        continue        # the stored value is not an entry of the array the candidates come from: another idiom
+                init = view.locals[x["d"]].get("init")
+                if init is None:
+                    continue
+                mi, mc = measure(init), measure(rhs_c)
+                if mi is None or mc is None or mc == ("const",):
+                    continue
+                found += 1
+                ok = mi == ("const",) or mi == mc
+                mixed = not ok and mi[1:] == mc[1:]
+                if ok and my is not None and my != mc:
+                    ck.ob(rule, "%s/%s" % (f.qn, x.get("n")), False,
+                          "running extremum %s: the candidate is compared as `%s` but stored as `%s` (%s against %s value of the same array)" % (
+                              x.get("n"), render(view.value(rhs_c))[:60], render(upd[0]["rhs"])[:60], {"abs": "absolute", "raw": "signed"}[mc[0]], {"abs": "absolute", "raw": "signed"}[my[0]]),
+                          f.file, upd[0].get("l"))
+                    continue
+                if not ok and not mixed:
+                    continue        # values of different arrays: not an extremum over one family, no claim
+                ck.ob(rule, "%s/%s" % (f.qn, x.get("n")), ok,
+                      "running extremum %s: initial value `%s` and candidates `%s` are %s" % (
+                          x.get("n"), render(init)[:60], render(view.value(rhs_c))[:60],
+                          "measured alike" if ok else "measured differently (%s value against %s value of the same array): a negative entry loses against every candidate, even an exact zero" % (
+                              {"abs": "absolute", "raw": "signed"}[mi[0]], {"abs": "absolute", "raw": "signed"}[mc[0]])),
+                      f.file, n.get("l"))
+        total += found
+    if fns and not total:
+        ck.incomplete(rule, "%s: no running-extremum search (if(cand > ext) ext = cand) recognised in it or in the functions it calls" % fns[0].qn)
+
+
 def check_status_filter(ck):
     """E7.status-filter (SchwarzPrecond<Global::Vector, Global::Filter>::apply): on every path on which the returned status
     may satisfy status_success(), the correction was synchronised (sync_1) and filter_cor-ed.  The returned status variable is
@@ -2537,6 +2645,7 @@ def run(tier):
     ck.rule("E0.factory-instantiable", "every documented new_*_precond factory overload (direct and PropertyMap based) can be instantiated for CSR/BCSR double matrices; an overload that does not compile cannot apply any operator", 14)
     ck.rule("E7.status-filter", "SchwarzPrecond<Global::Vector, Global::Filter>::apply(): on every path on which the returned status may be one for which status_success() holds (success, max_iter, stagnated) the correction was synchronised (sync_1) and passed through _filter.filter_cor(); decided by following the returned status variable over the CFG with the values {success, max_iter/stagnated, failure} (assignments of enumerators and ternaries, tests == / != / status_success refine it); assumes the vector has a communicator; breaks when the local solver stops with max_iter / stagnated: callers accept the status, the correction is the unsynchronised, unfiltered local one", 1)
     ck.rule("E13.case-exclusive", "UzawaPrecond::apply() (local and global variant): each case of the switch over the Uzawa type (diagonal / lower / upper / full) performs its own documented sequence of block solves only: control never falls from a non-empty case into the next label (decided on the statement structure of the class templates as written); breaks for the type whose case lost its break: the next case's solves overwrite pressure and velocity", 2)
+    ck.rule("E4.extremum-measure", "Math::invert_matrix (behind Tiny::Matrix::set_inverse for block sizes >= 7: diagonal blocks of blocked SOR / SSOR / ILU): the pivot search — a local running extremum that an if-statement compares with a candidate and then overwrites with it — takes its initial value, the compared candidates and the stored value in the same measure (all |a[..]| of one array, or a constant start value); breaks for a block whose current diagonal entry is negative while the other candidates vanish (pivot on ~0: garbage or NaN inverse of a regular block)", 1)
     ck.rule("E1.factory-forwards", "every documented new_*_precond factory uses each of its parameters (matrix, filter, omega, fill level, degree, section) and hands it, positionally, to the constructor parameter of its own name: a dropped argument is silently replaced by the constructor's default (e.g. omega = 1), two same-typed arguments in exchanged slots configure the wrong quantity; breaks for every non-default value of the dropped / misplaced parameter", 14)
     ck.rule("E2.sweep-triangular", "SOR/SSOR row sweeps: forward loop runs over row_ptr[i].. while col_ind[k] < i, backward over ..row_ptr[i+1]-1 while col_ind[k] > i, accumulates val[k]*out[col_ind[k]] (output read only at rows already updated in this sweep), divides by val[] at the stopping position (the diagonal), writes out[i] once; breaks for every matrix with off-diagonal entries (e.g. '>=' adds the diagonal term and runs past it)", 6)
     ck.rule("E6.sweep-form", "row update of each sweep as an algebraic normal form: SOR out_i = w D^-1 (b_i - S), SSOR forward out_i = D^-1 (b_i - w S), backward out_i -= w D^-1 S (block versions with the inverse applied from the left); SOR has one forward sweep, SSOR forward then backward; breaks for every omega != 1", 10)
@@ -2660,6 +2769,7 @@ def run(tier):
     check_factory_forwarding(ck)
     check_case_exclusive(ck)
     check_status_filter(ck)
+    check_extremum_measure(ck)
     # Vanka: local matrices gathered into a dense array
     vfacts = featlib.extract("tu/c08_vanka.cpp", files=featlib.repo_path(SOLVER) + "vanka.hpp")
     ck.tu(vfacts)
